@@ -325,6 +325,13 @@ func pairTableCases(big bool) []ExecCase {
 						out = append(out, ExecCase{Path: mode + "$.**{0} ? (@[0][*] " + op + " @[1][*])", Doc: doc2},
 							ExecCase{Path: mode + "$.**{0} ? (exists(@[0][*] ? (@ " + op + " 1)))", Doc: doc2},
 							ExecCase{Path: mode + "$.**{0} ? ((@[0][*] " + op + " @[1][*]) is unknown)", Doc: doc2})
+						if op == "==" {
+							// exists() over a sequence whose later items fail (non-structurally): strict mode looks at all of them
+							out = append(out, ExecCase{Path: mode + "$.**{0} ? (exists(@[0][*].double()))", Doc: doc2},
+								ExecCase{Path: mode + "$.**{0} ? (!exists(@[1][*].integer()))", Doc: doc2},
+								ExecCase{Path: mode + "$.**{0} ? ((exists(@[0][*].abs())) is unknown)", Doc: doc2},
+								ExecCase{Path: mode + "$ ? (exists(@[0][*].double()))", Doc: doc2})
+						}
 					}
 				}
 			}
@@ -373,7 +380,12 @@ func genDatetimeCmpCase(rt *rapid.T) (ExecCase, *Path) {
 		mode = "strict "
 	}
 	var text string
-	switch rapid.IntRange(0, 2).Draw(rt, "form") {
+	form := rapid.IntRange(0, 3).Draw(rt, "form")
+	switch form {
+	case 3:
+		// existential over the pairs of a sequence: an earlier pair that needs a time zone
+		// (non-suppressible without WithTZ) is not hidden by a later pair that satisfies the operator
+		text = fmt.Sprintf("%s$[*].datetime() %s %q.datetime()", mode, op, bs)
 	case 0:
 		text = fmt.Sprintf("%s$[*] ? (@.%s() %s %q.%s())", mode, am, op, bs, bm)
 	case 1:
@@ -383,6 +395,11 @@ func genDatetimeCmpCase(rt *rapid.T) (ExecCase, *Path) {
 	}
 	zs := []string{"", "UTC", "+05:30", "-12:00", "America/New_York", "-05:00", "+10:00", "Australia/Sydney"}
 	c := ExecCase{Path: text, Doc: fmt.Sprintf("[%q,%q]", as, bs), Opts: Opts{TZ: rapid.IntRange(0, 9).Draw(rt, "tz") < 8, Zone: rapid.SampledFrom(zs).Draw(rt, "zone")}}
+	if form == 3 {
+		cs, _ := mk("c")
+		c.Doc = fmt.Sprintf("[%q,%q,%q]", as, cs, bs)
+		c.Opts.TZ = rapid.Bool().Draw(rt, "tz3")
+	}
 	pr, err := prepare(c)
 	if err != nil {
 		rt.Fatalf("harness: %q does not parse: %v", text, err)
